@@ -257,6 +257,17 @@ def run(prog, chk):
                 okc = okc and dom
                 if not dom:
                     detail += '; does not precede the sweep on every path'
+                # … and the marking pass is complete before anything is selected for the sweep: marking an object marks what it
+                # reaches, possibly objects that come *earlier* in the candidate order — so no test of a mark bit and no selection
+                # may sit inside the marking loop itself
+                lh = [x for x in gg.nodes if x.kind == 'loophead' and x.e is loopv]
+                if lh:
+                    inloop = gg.reachable(lh) & gg.reachable(lh, forward=False)
+                    early = [x for x in (sweep + wipes) if x.id in inloop]
+                    early += [x for x in gg.nodes if x.kind == 'cond' and x.id in inloop and any(y['k'] == 'member' and y['name'] == 'marked' for y in SX.walk(x.e))]
+                    if early:
+                        okc = False
+                        detail += '; objects are selected for the sweep (line %s) inside the marking loop: an object reachable only through a later candidate is swept before that candidate marks it' % early[0].ln
                 break
         chk.ob('R11.2', gc, gc.ln, okc, 'candidate with more owners than traced references must be marked live before the sweep: ' + detail,
                key='conservative-compare')
